@@ -13,6 +13,7 @@ func init() {
 }
 
 func runC02(p *Prog, r *Report) {
+	lockBalance(p, r, "C02.7/E1", "internal/core", "protocol/xpair", "protocol/xpair1", "protocol/xpush", "protocol/xpull")
 	q := NewQ(p, r)
 	R := "C02.1/pair-admission"
 	r.Describe(R, "xpair/xpair1.AddPipe: peer stored only when peer == nil (and open) under the socket lock; refusal returns ErrProtoState without side effects; RemovePipe clears peer only for the admitted pipe")
@@ -118,6 +119,8 @@ func runC02(p *Prog, r *Report) {
 		st := apu.Ev("store", "recv.readyQ")
 		r.Check(len(bc) == 1 && len(st) == 1 && bc.DominatedBy(st), R, "AddPipe/new-pipe-ready", bc.Pos(p), "a new pipe is queued as ready and the scheduler is woken", "a new pipe is not made ready / the scheduler not woken")
 	}
+	q.ListRemoval(R, "RemovePipe/leaves-ready-list", q.Fn(R, "protocol/xpush", "socket", "RemovePipe"), "recv.readyQ", xm, "RemovePipe does not take the departing pipe out of the ready list by shortening it: a stale or duplicated entry is scheduled later and the message handed to it is lost or sent twice")
+	q.StoreClasses(R, "readyQ-writers", "protocol/xpush.socket.readyQ", map[string]string{"protocol/xpush.(*socket).sender": "set", "protocol/xpush.(*pipe).send": "set", "protocol/xpush.(*socket).AddPipe": "set", "protocol/xpush.(*socket).RemovePipe": "set"})
 	q.OnlyIn(R, "xpush/callers-of-pipe-SendMsg", callersIn(p, "protocol/xpush", "ProtocolPipe.SendMsg"), []string{"protocol/xpush.(*pipe).send"}, []string{"protocol/xpush.(*pipe).send"})
 	q.OnlyIn(R, "xpush/spawners-of-send", p.CallersOfGo("xpush.(*pipe).send"), []string{"protocol/xpush.(*socket).sender"}, []string{"protocol/xpush.(*socket).sender"})
 
